@@ -157,8 +157,12 @@ def eval_family(ctx, case):
     first = None
     tags = ["placement=" + case["placement"]]
     for run in range(k):
-        reset()
-        r = core.run_mockery(ctx, root, [], strace=strace, timeout=600)
+        for attempt in range(3):   # a tracer failure says nothing about mockery: the run is repeated from the same pristine tree
+            reset()
+            r = core.run_mockery(ctx, root, [], strace=strace, timeout=600)
+            if not r.tracer_failed:
+                break
+            ctx.count("tracer_failures_retried")
         if r.timed_out:
             return Verdict.inconclusive("watchdog")
         if r.panicked:
